@@ -154,7 +154,7 @@ impl Scheduler for SimScheduler {
             if let Mode::Pct(d) = st.mode {
                 if st.change_points.is_empty() && d > 0 {
                     // change points over a horizon typical for the scenarios
-                    let horizon = 600u64;
+                    let horizon = [60u64, 300, 1500, 6000][st.rng.below(4) as usize];
                     for _ in 0..d {
                         let p = 1 + st.rng.below(horizon);
                         st.change_points.push(p);
